@@ -460,6 +460,9 @@ class RefPeg:
                 obj['_span'] = (min(s[0] for s in spans), max(s[1] for s in spans))
             else:
                 obj['_span'] = None
+            # span over every matched token of the object, suppressed ones included
+            toks = [(it[2], it[3]) for it in _toks(items) if it[3] > it[2]]
+            obj['_span_all'] = (min(t[0] for t in toks), max(t[1] for t in toks)) if toks else None
             return (('obj', obj, obj['_span'][0] if spans else pos,
                      obj['_span'][1] if spans else pos),)
         vals = [it for it in items if it[0] in ('txt', 'val', 'obj')]
